@@ -1,5 +1,11 @@
 package dagaz
 
+import "sync"
+
 type State struct {
+	// Guards SpatialPartition (and the quads it holds), which is shared by the
+	// handlers of all the participants of a session.
+	Mutex sync.Mutex
+
 	SpatialPartition SpatialPartition
 }
